@@ -1,7 +1,6 @@
 import Mp.DecProofs
 import Mp.CmpFunc
 import Mp.AnyOfProofs
-import Mp.FactChecks
 /-! C05 — property theorems (proved in the imported modules; statements are checked there, axioms audited here). -/
 #print axioms Mp.Dec.cmp_spec
 #print axioms Mp.Dec.trichotomy
@@ -20,4 +19,3 @@ import Mp.FactChecks
 #print axioms Mp.equal_str_vs_other
 #print axioms Mp.anyOf_dec_iff
 #print axioms Mp.anyOf_str_iff
-#print axioms Mp.FactChecks.params_order
